@@ -876,12 +876,27 @@ func check(prop, tier string, onlyPart string) int {
 			if v, ok := params["replay_attempts"].(float64); ok && v > 1 {
 				attempts = int(v)
 			}
+			// Everywhere else the first replay must show the same class. If it does not, the code under test
+			// may itself be nondeterministic under a fixed schedule (a changed tree can be, e.g. a result
+			// that depends on map iteration order): two more attempts decide between that and tool trouble.
+			confirmAttempts := attempts
+			if confirmAttempts < 4 {
+				confirmAttempts = 4
+			}
 			var rr Result
 			var perr string
 			reproduced := false
-			for a := 0; a < attempts && !reproduced; a++ {
+			flaky := false
+			for a := 0; a < confirmAttempts && !reproduced; a++ {
 				rr, perr = runReplay(j, rf, false)
 				reproduced = perr == "" && sameClass(rr, k)
+				if !reproduced {
+					flaky = true
+				}
+			}
+			if reproduced && flaky && attempts == 1 {
+				attempts = 8
+				outLines = append(outLines, fmt.Sprintf("  note: %q needed more than one replay of its choice log to show again: the code under test is nondeterministic under a fixed schedule", k))
 			}
 			if !reproduced {
 				fatal2("violation %q of %s (seed %d) did not reproduce from its own choice log (%s %s %s): tool trouble, not reported as a violation", k, prop, r.Seed, perr, rr.Outcome, rr.Key)
@@ -890,6 +905,7 @@ func check(prop, tier string, onlyPart string) int {
 			if tier == "thorough" {
 				sb, sa = 240*time.Second, 1200
 			}
+			unshrunk := rf
 			if attempts == 1 {
 				rf = shrink(j, rf, k, sb, sa)
 			}
@@ -899,13 +915,30 @@ func check(prop, tier string, onlyPart string) int {
 				fr, perr = runReplay(j, rf, true)
 				reproduced = perr == "" && sameClass(fr, k)
 			}
+			if !reproduced && attempts == 1 {
+				// shrinking relies on replays being deterministic; when the code under test is not, the
+				// minimised file may not show the violation again: fall back to the confirmed, unshrunk log
+				rf, attempts = unshrunk, 8
+				outLines = append(outLines, fmt.Sprintf("  note: the minimised replay of %q did not show the violation again; the unshrunk choice log is kept (the code under test is nondeterministic under a fixed schedule)", k))
+				for a := 0; a < attempts && !reproduced; a++ {
+					fr, perr = runReplay(j, rf, true)
+					reproduced = perr == "" && sameClass(fr, k)
+				}
+			}
 			if !reproduced {
 				fatal2("minimised replay of %q did not reproduce (%s): tool trouble", k, perr)
 			}
 			if attempts == 1 {
 				fr2, _ := runReplay(j, rf, false)
 				if fr2.LogHash != fr.LogHash && !fr.crashed {
-					fatal2("minimised replay of %q is not deterministic (event log hashes %s vs %s): tool trouble", k, fr.LogHash, fr2.LogHash)
+					if !sameClass(fr2, k) {
+						fatal2("minimised replay of %q is not deterministic (event log hashes %s vs %s, second replay: %s %s): tool trouble", k, fr.LogHash, fr2.LogHash, fr2.Outcome, fr2.Key)
+					}
+					// The same violation twice, but not the same event log: the code under test itself behaves
+					// nondeterministically under one schedule (for instance a result that depends on map
+					// iteration order). That is reported with the violation, not hidden as tool trouble; on the
+					// unchanged tree ./check determinism shows that replays are bit-identical.
+					outLines = append(outLines, fmt.Sprintf("  note: two replays of %q reproduce the violation with different event logs (%s vs %s): the code under test is nondeterministic under a fixed schedule", k, fr.LogHash, fr2.LogHash))
 				}
 			}
 			rf.LogHash = fr.LogHash
